@@ -410,23 +410,27 @@ func mutate(rng *hx.Rng, r *tbl.Raw) (string, bool) {
 
 // ---------------------------------------------------------------- corr
 
-func emitCase(id string, kind string, r *tbl.Raw, qs []string) int {
-	stbl, err := r.Build()
+func emitCase(id string, kind string, r *tbl.Raw, p *plan, qs []string) int {
+	stbl, trace, err := buildPlan(r, p)
 	if err != nil {
-		fmt.Fprintf(out, "T\t%s\t%s\t%s\tbuild=err\n", id, kind, r.Encode())
+		fmt.Fprintf(out, "T\t%s\t%s\t%s\t%s\tbuild=err\n", id, kind, r.Encode(), p.Encode(r.HasCtts))
 		return 1
 	}
 	bx := &boxes{stbl: stbl, trak: tbl.Trak(stbl)}
 	var sb strings.Builder
 	sb.WriteString("build=ok")
+	for _, t := range trace {
+		sb.WriteByte(' ')
+		sb.WriteString(t)
+	}
 	for _, q := range qs {
 		sb.WriteByte(' ')
 		sb.WriteString(q)
 		sb.WriteByte('=')
 		sb.WriteString(query(bx, q))
 	}
-	fmt.Fprintf(out, "T\t%s\t%s\t%s\t%s\n", id, kind, r.Encode(), sb.String())
-	return len(qs)
+	fmt.Fprintf(out, "T\t%s\t%s\t%s\t%s\t%s\n", id, kind, r.Encode(), p.Encode(r.HasCtts), sb.String())
+	return len(qs) + len(trace)
 }
 
 func corr(seed uint64, n int) {
@@ -436,7 +440,7 @@ func corr(seed uint64, n int) {
 		r := tbl.Gen(rng, tbl.DefaultOpt)
 		x := tbl.Expand(r)
 		qs := queriesOf(rng, r, x, qopt{intervals: true, sampleData: true, outOfRange: true, maxAllPairs: 16})
-		total += emitCase(fmt.Sprintf("v%d", i), "V", r, qs)
+		total += emitCase(fmt.Sprintf("v%d", i), "V", r, genPlan(rng, r, false), qs)
 	}
 	// malformed stream
 	for i := 0; i < n/2; i++ {
@@ -449,7 +453,7 @@ func corr(seed uint64, n int) {
 			x.N = 60
 		}
 		qs := queriesOf(rng, r, x, qopt{intervals: safe, sampleData: true, outOfRange: true, maxAllPairs: 8})
-		total += emitCase(fmt.Sprintf("m%d-%s", i, label), "M", r, qs)
+		total += emitCase(fmt.Sprintf("m%d-%s", i, label), "M", r, genPlan(rng, r, true), qs)
 	}
 	out.Flush()
 	fmt.Fprintf(os.Stderr, "QUERIES\t%d\n", total)
@@ -458,6 +462,7 @@ func corr(seed uint64, n int) {
 // ---------------------------------------------------------------- search
 
 var evals int
+var curPlan = "decode" // how the boxes of the table under search were built (plan.Encode)
 var failCount = map[string]int{}
 
 func fail(site, class string, r *tbl.Raw, q, got, want string) {
@@ -467,8 +472,8 @@ func fail(site, class string, r *tbl.Raw, q, got, want string) {
 		return
 	}
 	w := strings.ReplaceAll(r.Encode(), "\t", " | ")
-	fmt.Fprintf(out, "FAIL\t%s\t%s\t%s ; query %s\t%s returned %s, the expansion of the tables gives %s\n",
-		site, class, w, q, site, got, want)
+	fmt.Fprintf(out, "FAIL\t%s\t%s\t%s ; built by %s ; query %s\t%s returned %s, the expansion of the tables gives %s\n",
+		site, class, w, curPlan, q, site, got, want)
 }
 
 var siteOf = map[string]string{
@@ -609,10 +614,18 @@ func classify(got, want string) string {
 }
 
 func searchTable(rng *hx.Rng, r *tbl.Raw, withOOR bool) {
-	stbl, err := r.Build()
+	pl := genPlan(rng, r, false)
+	curPlan = pl.Encode(r.HasCtts)
+	stbl, trace, err := buildPlan(r, pl)
 	if err != nil {
-		fail("StscBox.AddEntry/DecodeStsc", "error-returned", r, "build", "err", "ok")
+		fail("table box decoders", "error-returned", r, "build", "err", "ok")
 		return
+	}
+	for _, t := range trace {
+		evals++
+		if strings.Contains(t, "=err/") {
+			fail("CttsBox.AddSampleCountsAndOffset/StscBox.AddEntry", "error-returned", r, t, "err", "ok")
+		}
 	}
 	bx := &boxes{stbl: stbl, trak: tbl.Trak(stbl)}
 	x := tbl.Expand(r)
@@ -752,7 +765,7 @@ func files(paths []string, doSearch bool) {
 				sb.WriteString(" " + q + "=" + query(bx, q))
 			}
 			base := p[strings.LastIndex(p, "/")+1:]
-			fmt.Fprintf(out, "T\tf-%s-%d\tV\t%s\t%s\n", base, ti, r.Encode(), sb.String())
+			fmt.Fprintf(out, "T\tf-%s-%d\tV\t%s\t%s\t%s\n", base, ti, r.Encode(), decodedPlan(r).Encode(r.HasCtts), sb.String())
 		}
 	}
 	if doSearch {
